@@ -8,7 +8,7 @@ from bounded import geo, gen, repl
 
 def check(spec):
     case = repl.planted(spec['cell'], spec['pair'], spec['copies'], spec['seed'])
-    sp, rp = repl.patterns(spec['pair'])
+    sp, rp = repl.patterns(spec['pair'], with_terms=spec.get('extras', False), extras=spec.get('extras', False))
     S = case['structure']
     cell = case['cell']
     f = spec.get('f', 1.0)
@@ -92,6 +92,10 @@ def specs(tier, seed):
                     if tier == 'quick' and ra and f not in (0.5, 1.0):
                         continue
                     out.append(dict(cell=cell, pair=pair, copies=4, seed=seed * 100 + pi * 7 + ci, f=f, replace_all=ra, rng=pi + ci))
+    # replacement patterns that carry terms and extra (CIF-style) columns the structure lacks
+    for pi, pair in enumerate(['grow-shared', 'swap-element', 'disjoint']):
+        for f in (0.5, 1.0):
+            out.append(dict(cell='ortho', pair=pair, copies=3, seed=seed * 100 + 70 + pi, f=f, replace_all=False, rng=pi, extras=True))
     return out
 
 
